@@ -1,5 +1,393 @@
-def gen_history(seed, cfg):
-    return []
-def run_history(ops, log_keep=False):
-    from .kernel import EventLog
-    return {"violation": None, "digest": EventLog().digest(), "n_events": 0, "probes": {}, "faults": {}, "n_edges": 0, "n_keys": 0, "events": None}
+"""C11 level (b): the reference closure model fed by real Procedure objects and
+real scheduling operations.
+
+The model's edges come from an op table that is independent of the code under
+test: ordinary rewrites are steps modulo the empty set, configuration rewrites
+are steps modulo the set handed to the equivalence tracker (observed at the
+Procedure constructor; its correctness is C10's business), signature-changing
+operations (partial_eval, add_assertion, the sub-procedure returned by
+extract_subproc) start a new origin, unsafe_assert_eq is an explicit edge.
+Every answer of check_eqv_proc / get_strictest_eqv_proc / call_eqv acceptance is
+compared with the closure.
+"""
+from __future__ import annotations
+
+from .eqv_sim import EqvModel
+from .kernel import EventLog, Probes, substream
+from .progs import define
+from .seams import CrashSeam, collect, gc_off, make_crash_exc
+
+SRC = '''
+@config
+class CfgA:
+    a: f32
+    b: f32
+
+
+@config
+class CfgB:
+    a: f32
+
+
+@proc
+def g(n: size, dst: [f32][n], v: f32):
+    for i in seq(0, n):
+        dst[i] = dst[i] * v
+
+
+@proc
+def h(n: size, dst: [f32][n], v: f32):
+    for i in seq(0, n):
+        dst[i] = dst[i] * v
+
+
+@proc
+def top(n: size, x: f32[n], y: f32[n], s: f32):
+    g(n, y[0:n], s)
+    for i in seq(0, n):
+        y[i] += x[i]
+
+
+@proc
+def top2(n: size, x: f32[n], y: f32[n], s: f32):
+    h(n, y[0:n], s)
+'''
+
+FIELDS = [("CfgA", "a"), ("CfgA", "b"), ("CfgB", "a")]
+
+
+def _written_fields(ir, skip=None):
+    """(config name, field) of every WriteConfig in ir or its callees (except
+    inside the procedure `skip`)."""
+    from exo.core.LoopIR import LoopIR
+
+    seen = {id(skip)} if skip is not None else set()
+    out = set()
+
+    def rec(stmts):
+        for s in stmts:
+            if isinstance(s, LoopIR.WriteConfig):
+                out.add((s.config.name(), s.field))
+            elif isinstance(s, LoopIR.If):
+                rec(s.body)
+                rec(s.orelse)
+            elif isinstance(s, LoopIR.For):
+                rec(s.body)
+            elif isinstance(s, LoopIR.Call) and id(s.f) not in seen:
+                seen.add(id(s.f))
+                rec(s.f.body)
+
+    rec(ir.body)
+    return out
+
+
+def gen_history(seed: int, cfg: dict) -> list:
+    r = substream(seed, "eqv-api-hist")
+    n_ops = r.randint(cfg.get("min_ops", 6), cfg.get("max_ops", 16))
+    fault_rate = cfg.get("fault_rate", 0.0)
+    live = ["g", "h", "top", "top2"]
+    lineage = {x: x for x in live}
+    ops = []
+    k = 0
+    for i in range(n_ops):
+        u = r.random()
+        p = r.choice(live)
+        k += 1
+        out = f"v{k}"
+        lineage[out] = lineage[p] if not (0.66 <= u < 0.76) else out
+        if u < 0.16:
+            ops.append({"op": "rename", "on": p, "out": out, "name": r.choice(["foo", "bar", "baz"])})
+        elif u < 0.26:
+            ops.append({"op": "simplify", "on": p, "out": out})
+        elif u < 0.34:
+            ops.append({"op": "insert_pass", "on": p, "out": out})
+        elif u < 0.52:
+            c, f = r.choice(FIELDS)
+            ops.append({"op": "write_config", "on": p, "out": out, "cfg": c, "field": f, "rhs": r.choice(["v", "s", "1.0"]), "after": r.random() < 0.5})
+        elif u < 0.60:
+            c, f = r.choice(FIELDS)
+            ops.append({"op": "bind_config", "on": p, "out": out, "cfg": c, "field": f})
+        elif u < 0.66:
+            ops.append({"op": "delete_config", "on": p, "out": out})
+        elif u < 0.72:
+            ops.append({"op": "partial_eval", "on": p, "out": out, "n": r.choice([2, 3, 4])})
+        elif u < 0.76:
+            ops.append({"op": "add_assertion", "on": p, "out": out})
+        elif u < 0.80:
+            ops.append({"op": "extract_subproc", "on": p, "out": out})
+        elif u < 0.85:
+            ops.append({"op": "unsafe_assert_eq", "on": p, "other": r.choice(live)})
+            continue
+        elif u < 0.95:
+            callers = [x for x in live if lineage[x] in ("top", "top2")]
+            p = r.choice(callers)
+            lineage[out] = lineage[p]
+            want = "g" if lineage[p] == "top" else "h"
+            cands = [x for x in live if lineage[x] == want]
+            callee = r.choice(cands) if cands and r.random() < 0.8 else r.choice(live)
+            ops.append({"op": "call_eqv", "on": p, "out": out, "callee": callee})
+        else:
+            ops.append({"op": "forget", "on": p}) if len(live) > 5 and p not in ("g", "h", "top", "top2") else ops.append({"op": "gc"})
+            if ops[-1]["op"] == "forget":
+                live.remove(p)
+            continue
+        if r.random() < fault_rate:
+            ops[-1]["crash"] = {"u": r.random(), "flavour": r.choice(["crash", "interrupt"])}
+        live.append(out)
+        # queries between random pairs after every step
+        for _ in range(r.randint(1, 3)):
+            a, b = r.choice(live), r.choice(live)
+            K = [list(x) for x in r.sample(FIELDS, r.randint(0, 2))]
+            ops.append({"op": r.choice(["check", "strictest"]), "a": a, "b": b, "K": K})
+    return ops
+
+
+def run_history(ops: list, log_keep=False) -> dict:
+    import exo.API_scheduling as AS
+    from exo.API import Procedure
+    from exo.core import proc_eqv as PE
+    from exo.core.configs import reverse_config_lookup
+
+    gc_off()
+    log = EventLog(keep=log_keep)
+    probes = Probes()
+    model = EqvModel()
+    faults = {"crash_planned": 0, "crash_fired": 0, "forget": 0, "gc": 0}
+    viol = None
+    ns = define(SRC, tag="eqvapi")
+    procs = {k: ns[k] for k in ("g", "h", "top", "top2")}
+    for k in procs:
+        model.add_node(k)
+    crash = CrashSeam()
+
+    def fail(sig, detail, idx, op):
+        nonlocal viol
+        if viol is None:
+            viol = {"prop": "C11", "sig": sig, "detail": detail, "step": idx, "op": op,
+                    "key": {"sig": sig, "op": op["op"], "engine": "eqv-api"}}
+
+    def keyname(sym):
+        c, f = reverse_config_lookup(sym)
+        return (c.name(), f)
+
+    def sym_of(cname, f):
+        return ns[cname]._INTERNAL_sym(f)
+
+    # observe what the API hands to the tracker
+    observed = []
+    orig_derive = PE.derive_proc
+
+    def spy_derive(orig_proc, new_proc, config_set=frozenset()):
+        observed.append(frozenset(keyname(s) for s in config_set))
+        return orig_derive(orig_proc, new_proc, config_set)
+
+    import exo.API as API
+
+    API.derive_proc = spy_derive
+
+    ctx = {}
+
+    def do(op, p):
+        nm = op["op"]
+        ctx.pop("old_callee", None)
+        if nm == "rename":
+            return AS.rename(p, op["name"])
+        if nm == "simplify":
+            return AS.simplify(p)
+        if nm == "insert_pass":
+            return AS.insert_pass(p, p.body()[0].before())
+        if nm == "write_config":
+            st = p.body()[0]
+            gap = st.after() if op["after"] else st.before()
+            return AS.write_config(p, gap, ns[op["cfg"]], op["field"], op["rhs"])
+        if nm == "bind_config":
+            c = None
+            for pat in ("v", "s"):
+                try:
+                    c = p.find(pat)
+                    break
+                except Exception:
+                    continue
+            if c is None:
+                raise LookupError("no scalar read")
+            return AS.bind_config(p, c, ns[op["cfg"]], op["field"])
+        if nm == "delete_config":
+            c = p.find("_._ = _") if False else None
+            for cname, f in FIELDS:
+                try:
+                    c = p.find(f"{cname}.{f} = _")
+                    break
+                except Exception:
+                    continue
+            if c is None:
+                raise LookupError("no config write")
+            return AS.delete_config(p, c)
+        if nm == "partial_eval":
+            return p.partial_eval(n=op["n"])
+        if nm == "add_assertion":
+            return p.add_assertion("n > 0")
+        if nm == "extract_subproc":
+            r0, sub = AS.extract_subproc(p, p.body()[0], "ex_sub")
+            return (r0, sub)
+        if nm == "call_eqv":
+            q = procs[op["callee"]]
+            call = None
+            for cal in ("g", "h", "foo", "bar", "baz", "ex_sub"):
+                try:
+                    call = p.find(f"{cal}(_)")
+                    break
+                except Exception:
+                    continue
+            if call is None:
+                raise LookupError("no call")
+            ctx["old_callee"] = call._impl._node.f
+            return AS.call_eqv(p, call, q)
+        raise LookupError(nm)
+
+    for idx, op in enumerate(ops):
+        nm = op["op"]
+        if nm in ("check", "strictest"):
+            if op["a"] not in procs or op["b"] not in procs:
+                continue
+            a, b = procs[op["a"]]._loopir_proc, procs[op["b"]]._loopir_proc
+            K = frozenset(tuple(x) for x in op.get("K", []))
+            Ksyms = frozenset(sym_of(c, f) for c, f in K)
+            if nm == "check":
+                got = bool(PE.check_eqv_proc(a, b, Ksyms))
+                lo = model.check(op["a"], op["b"], K, False)
+                hi = model.check(op["a"], op["b"], K, True) if model.has_optional() else lo
+                log.log("check", a=op["a"], b=op["b"], K=sorted(K), got=got)
+                probes.hit("check_true" if got else "check_false")
+                if got and not hi:
+                    fail("check:over-reports-equivalence", f"{op['a']} ~ {op['b']} modulo {sorted(K)} reported, closure says no", idx, op)
+                elif (not got) and lo:
+                    fail("check:under-reports-equivalence", f"{op['a']} ~ {op['b']} modulo {sorted(K)} not reported", idx, op)
+            else:
+                is_eqv, keys = PE.get_strictest_eqv_proc(a, b)
+                keys = frozenset(keyname(s) for s in keys)
+                lo_e, lo_k = model.strictest(op["a"], op["b"], False)
+                hi_e, hi_k = model.strictest(op["a"], op["b"], True) if model.has_optional() else (lo_e, lo_k)
+                log.log("strictest", a=op["a"], b=op["b"], eqv=bool(is_eqv), keys=sorted(keys))
+                probes.hit("strictest_eqv" if is_eqv else "strictest_not")
+                if is_eqv and not hi_e:
+                    fail("strictest:over-reports-equivalence", f"{op['a']} and {op['b']} have different origin", idx, op)
+                elif (not is_eqv) and lo_e:
+                    fail("strictest:under-reports-equivalence", "", idx, op)
+                elif is_eqv:
+                    must = hi_k if hi_e else frozenset()
+                    may = lo_k if lo_e else frozenset(model.all_keys())
+                    if not must <= keys:
+                        fail("strictest:missing-key", f"reported {sorted(keys)}, closure requires {sorted(must)}", idx, op)
+                    elif not keys <= may:
+                        fail("strictest:spurious-key", f"reported {sorted(keys)}, closure allows {sorted(may)}", idx, op)
+            if viol:
+                break
+            continue
+        if nm == "gc":
+            collect()
+            faults["gc"] += 1
+            continue
+        if nm == "forget":
+            if op["on"] in procs and op["on"] not in ("g", "h", "top", "top2"):
+                del procs[op["on"]]
+                collect()
+                faults["forget"] += 1
+            continue
+        if op["on"] not in procs:
+            continue
+        p = procs[op["on"]]
+        if nm == "unsafe_assert_eq":
+            if op["other"] in procs:
+                p.unsafe_assert_eq(procs[op["other"]])
+                model.add_edge(op["on"], op["other"], frozenset())
+                log.log("assert", a=op["on"], b=op["other"])
+            continue
+        observed.clear()
+        cr = op.get("crash")
+        call = lambda: do(op, p)  # noqa: E731
+        crashed = False
+        if cr:
+            faults["crash_planned"] += 1
+            ref, n = crash.run(lambda: None)
+            # count events of the real call on a throw-away basis is impossible (side effects
+            # in the tracker), so the crash index is drawn from a fixed range
+            k = 1 + int(cr["u"] * 4000)
+            out, _ = crash.run(call, k=k, exc=make_crash_exc(cr["flavour"]))
+            if crash.fired:
+                faults["crash_fired"] += 1
+                crashed = True
+        else:
+            try:
+                out = ("ret", call())
+            except Exception as e:
+                out = ("exc", e)
+        log.log("op", op=nm, on=op["on"], o=out[0])
+        if out[0] != "ret":
+            if crashed and observed:
+                # the tracker may have been updated before the crash: optional edge to a ghost
+                ghost = ("ghost", idx)
+                model.add_node(ghost)
+                model.add_edge(op["on"], ghost, observed[-1], optional=True)
+            probes.hit("op_rejected")
+            continue
+        probes.hit("op_accepted_" + nm)
+        res = out[1]
+        sub = None
+        if isinstance(res, tuple):
+            res, sub = res
+        if not isinstance(res, Procedure) or res is p:
+            continue
+        procs[op["out"]] = res
+        model.add_node(op["out"])
+        K_obs = observed[-1] if observed else None
+        if nm in ("partial_eval", "add_assertion"):
+            # new origin: no edge
+            if K_obs is not None:
+                fail("signature-changing-op-keeps-provenance", f"{nm} registered a derivation step", idx, op)
+                break
+        elif nm in ("rename", "simplify", "insert_pass", "extract_subproc"):
+            if K_obs is None:
+                fail("derivation-not-recorded", f"{nm} did not register a derivation step", idx, op)
+                break
+            if K_obs:
+                fail("spurious-mod-set", f"{nm} reported {sorted(K_obs)}", idx, op)
+                break
+            model.add_edge(op["on"], op["out"], frozenset())
+        else:
+            if K_obs is None:
+                fail("derivation-not-recorded", f"{nm} did not register a derivation step", idx, op)
+                break
+            Kexp = K_obs
+            if nm == "call_eqv":
+                # the new callee must be in the closure of the old one, and the step disturbs at least
+                # nothing outside what separates the two callees
+                probes.hit("call_eqv_accepted")
+                old = [k for k, v in procs.items() if v._loopir_proc is ctx.get("old_callee")]
+                if old and not model.unv(old[0], op["callee"], True):
+                    fail("call_eqv:accepts-unrelated-callee", f"{old[0]} and {op['callee']} are not connected by recorded steps", idx, op)
+                    break
+                if old and not model.has_optional():
+                    # fields that separate the two callees and that nothing in the caller (or any of its
+                    # callees) ever writes cannot be shadowed, so the step must report them
+                    e_, sep = model.strictest(old[0], op["callee"], False)
+                    written = _written_fields(res._loopir_proc, skip=procs[op["callee"]]._loopir_proc)
+                    must = frozenset(k for k in sep if k not in written)
+                    if e_ and not must <= K_obs:
+                        fail("call_eqv:drops-mod-set", f"callees differ modulo {sorted(sep)}, caller never overwrites {sorted(must)}, step recorded modulo {sorted(K_obs)}", idx, op)
+                        break
+            model.add_edge(op["on"], op["out"], Kexp)
+        if sub is not None:
+            procs[op["out"] + "s"] = sub
+            model.add_node(op["out"] + "s")
+    crash.uninstall()
+    API.derive_proc = orig_derive
+    return {
+        "violation": viol,
+        "digest": log.digest(),
+        "n_events": log.n,
+        "probes": dict(probes),
+        "faults": faults,
+        "n_edges": len(model.edges),
+        "n_keys": len(model.all_keys()),
+        "events": log.events if log_keep else None,
+    }
